@@ -3,13 +3,11 @@
 
    names_apart sp holds when
      (a) no binder (parameter, `let`, `for` variable) of any function or shadow block is spelled like a top-level
-         constant -- so whatever a function reads as a free name cannot be captured by a caller's local or by a local
-         that an earlier shadow block left on the evaluator's stack;
-     (b) inside one function / shadow block no binder re-uses a name that is in scope at that point (no shadowing of a
-         live name; parameters pairwise distinct) -- so a name bound inside a block, still sitting on the evaluator's
-         stack after the block, is never the newest symbol for a name that is read later.  Sibling blocks may re-use a
-         name, and so may different functions (recursion included);
+         constant -- so whatever a function reads as a free name cannot be captured by a local of one of its callers
+         (the evaluator resolves names on ONE stack shared by all active calls: dynamic scoping);
      (c) string literals contain no escape sequence and no NUL (the evaluator prints the source spelling).
+   Since fix 9481a65 (blocks pop their symbols) nothing is asked about names re-used inside one function: shadowing a
+   live name in an inner block, re-using a name after a block, duplicate parameters are all inside the theorem.
    Definitions only. *)
 From Coq Require Import ZArith NArith List Bool.
 From NV Require Import Lang.Ast Back.InterpSem Driver.ShadowGate.
@@ -17,18 +15,15 @@ Import ListNotations.
 
 Definition mem (x : ident) (l : list ident) : bool := existsb (N.eqb x) l.
 
-(* [chk gn bound s] = names in scope after s when s is entered with [bound] in scope; None when a binder of s re-uses a
-   name in scope or a global name *)
-Fixpoint chk (gn bound : list ident) (s : stmt) : option (list ident) :=
+(* no binder of s is a global name *)
+Fixpoint binders_ok (gn : list ident) (s : stmt) : bool :=
   match s with
-  | SLet _ x _ _ => if mem x bound || mem x gn then None else Some (x :: bound)
-  | SSeq a b => match chk gn bound a with Some b1 => chk gn b1 b | None => None end
-  | SIf _ a b => match chk gn bound a, chk gn bound b with Some _, Some _ => Some bound | _, _ => None end
-  | SWhile _ b => match chk gn bound b with Some _ => Some bound | None => None end
-  | SFor x _ _ b =>
-      if mem x bound || mem x gn then None
-      else match chk gn (x :: bound) b with Some _ => Some bound | None => None end
-  | _ => Some bound
+  | SLet _ x _ _ => negb (mem x gn)
+  | SSeq a b => binders_ok gn a && binders_ok gn b
+  | SIf _ a b => binders_ok gn a && binders_ok gn b
+  | SWhile _ b => binders_ok gn b
+  | SFor x _ _ b => negb (mem x gn) && binders_ok gn b
+  | _ => true
   end.
 
 Fixpoint expr_plain (e : expr) : bool :=
@@ -51,16 +46,11 @@ Fixpoint stmt_plain (s : stmt) : bool :=
   | SFor _ lo hi b => expr_plain lo && expr_plain hi && stmt_plain b
   end.
 
-Fixpoint nodupb (l : list ident) : bool :=
-  match l with [] => true | x :: r => negb (mem x r) && nodupb r end.
-
 Definition fn_ok (gn : list ident) (d : fn) : bool :=
-  let ps := map fst (fparams d) in
-  nodupb ps && forallb (fun x => negb (mem x gn)) ps &&
-  (match chk gn (rev ps) (fbody d) with Some _ => true | None => false end) && stmt_plain (fbody d).   (* last parameter = newest binding *)
+  forallb (fun x => negb (mem x gn)) (map fst (fparams d)) && binders_ok gn (fbody d) && stmt_plain (fbody d).
 
 Definition shadow_ok (gn : list ident) (sh : shadow) : bool :=
-  (match chk gn [] (sh_body sh) with Some _ => true | None => false end) && stmt_plain (sh_body sh).
+  binders_ok gn (sh_body sh) && stmt_plain (sh_body sh).
 
 Definition gnames (p : program) : list ident := map (fun g => fst (fst g)) (pglobals p).
 
